@@ -142,10 +142,11 @@ def job(j):
         hist, cause = lst[0]
         mn = shrink_hist(cfg, hist, clause)
         _, _, o2 = run_history(cfg, mn)
-        if not any(c == clause for c, _ in probe_monitor(cfg, o2)):
-            raise RuntimeError('non-deterministic failure')
         cell = f"{cfg['transport']}/ka={int(cfg['ka'])}"
         key = f"{clause}/{cell}/after:{'+'.join(sorted(set(x.split('-after-')[0] for x in mn))) or 'nothing'}"
+        if not any(c == clause for c, _ in probe_monitor(cfg, o2)):
+            key = f"{clause}/{cell}/order-dependent"
+            cause = f'{cause}; ' + 'failed during exploration but not on a fresh replay: the outcome depends on earlier executions in the same process (state outside the objects under test leaks between executions)'
         out.append(dict(key=key, clause=clause, n=len(lst), replay=dict(part='A', cfg=cfg, history=mn),
                         detail=dict(history=mn, cause=cause, probe_tx=[round(t, 6) for t, _, _ in o2.txs],
                                     probe_done=round(o2.t1, 6), R=cfg['R'], T=cfg['T'])))
@@ -285,7 +286,7 @@ def job_b(case):
     vio, info = run_entry(case)
     vio2, _ = run_entry(case)
     if vio != vio2:
-        raise RuntimeError('non-deterministic entry run')
+        vio = [('entry:order-dependent', 'two runs of the same entry point differ: ' + 'failed during exploration but not on a fresh replay: the outcome depends on earlier executions in the same process (state outside the objects under test leaks between executions)')]
     return vio, info
 
 
